@@ -22,7 +22,7 @@ ASSUMPTIONS = [
 ]
 
 # shapes that pass the strict comparison on the unchanged tree: part of the core budget
-CORE_ALLOWED = ("str_with_squote", 
+CORE_ALLOWED = ("optional_zero", "str_with_squote", 
     "kwargs_param", "multiline_summary", "float_default", "negative_int", "zero_int", "bool_false", "none_default",
     "prose_trailing_stop", "required_bool", "no_params", "str_with_space", "code_default", "int_under_nonscalar_type",
     "default_words", "prose_punct", "optional_prose", "union_with_str", "str_with_dot", "code_default_dot",
